@@ -70,6 +70,9 @@ class Check:
         if not replay:
             from .. import kindcheck
             kindcheck.report(rep, tier, seed, self.prop)
+            # the feature set without any Mutex API: what cannot be produced is refused at construction, everything else keeps its shape
+            from .. import nomutex
+            nomutex.report(rep, self.prop)
             # a composite single-use value requested by several threads still comes back whole to one of them (C12's leaf race)
             from .c12 import Check as C12
             c12 = C12(); c12.prop = self.prop
